@@ -671,6 +671,7 @@ def describe_wrapper(cls, kd_transform, kd_wrapper):
     fields = {k: v for k, v in fields.items() if not k.endswith("#alias")}
     inject, calls, local, wi = [], set(), set(), []
     understood = False
+    core = []     # (defining class, function) pairs that hold per-item code touching generators / transforms
     for c in kd_mro(cls):
         if c is kd_wrapper or not issubclass(c, kd_wrapper):
             continue
@@ -685,6 +686,7 @@ def describe_wrapper(cls, kd_transform, kd_wrapper):
             if res is None:
                 continue
             understood = True
+            core.append((c.__name__, name))
             inject += [x for x in res["inject"] if x not in inject]
             calls |= res["calls"]
             local |= res["local"]
@@ -723,6 +725,7 @@ def describe_wrapper(cls, kd_transform, kd_wrapper):
         "has_seed": "seed" in inspect.signature(cls.__init__).parameters or any(
             "seed" in inspect.signature(c.__init__).parameters for c in kd_mro(cls) if "__init__" in vars(c)),
         "understood": understood,
+        "core": core,
         "module": cls.__module__,
     }
 
@@ -1054,8 +1057,8 @@ def translate(repo):
         try:
             _CUR_CLASS[0] = cls
             wd = describe_wrapper(cls, KDTransform, KDWrapper)
-            if wd["fields"] or wd["inject"] or wd["local"] or wd["wi"]:
-                wdescs.append(wd)
+            # wrappers without transforms / generators get an (empty) row too: C09 stacks may contain them
+            wdescs.append(wd)
         except Abort as e:
             errors.append(f"{cls.__name__}: {e}")
         except Exception as e:  # noqa
